@@ -339,3 +339,5 @@ def run(rep: Report, prog: Program, tier: str) -> None:
     # ---------------- C13-POLICY (rules/C13life.py): per-channel reliability parameters at the hand-over to _send()
     from .C13life import run_policy
     run_policy(rep, prog, PROP, "C13-POLICY")
+    from .C13life import run_open_first
+    run_open_first(rep, prog, PROP, "C13-OPENFIRST")
